@@ -7,7 +7,7 @@ import tempfile
 
 from hypothesis import strategies as st
 
-from .. import base, gen
+from .. import audit, base, gen
 from ..base import Violation
 
 RULE = ("cases: (integer-labelled planar or lat/lon graph, box, trace, edge-based configuration with unbounded start radius); "
@@ -137,9 +137,10 @@ def compare_matching(case, im, sm, ctx=None):
     if not case["trace"]:
         return "none"
     path = base.to_path(case["trace"])
-    out, trailing_ne = [], False
+    out, trailing_ne, matchers = [], False, []
     for m in (im, sm):
         matcher = base.mk_matcher(m, case["config"])
+        matchers.append(matcher)
         states, idx = base.pkg(matcher.match, path)
         lb = matcher.lattice_best
         out.append((idx, len(states) > 0, float(lb[-1].logprob) if lb else None))
@@ -149,6 +150,12 @@ def compare_matching(case, im, sm, ctx=None):
             ctx.known("KF-NE-ORDER", "after an early stop the best path ends in a run of non-emitting states whose content depends on the "
                                      "order in which neighbours are listed (the two backends list them differently)")):
         return "excluded:KF-NE-ORDER"
+    if (a[0] == b[0] and a[1] == b[1] and not base.close(a[2], b[2], 1e-9) and case["config"].get("non_emitting_states") and
+            ctx is not None):
+        why = audit.ne_revisit_tie(matchers[0], matchers[1])
+        if why and ctx.known("KF-NE-ORDER", "the no-revisit filter of a non-emitting run follows the one chain kept among equally probable "
+                                            "predecessors; which one is kept depends on the listing order (the two backends list differently)"):
+            return "excluded:KF-NE-ORDER"
     if a[0] != b[0] or a[1] != b[1] or not base.close(a[2], b[2], 1e-9):
         raise Violation("matching", f"same matcher: inmem gives (idx, matched, logprob)={a}, sqlite {b}")
     return "empty" if not a[1] else ("full" if a[0] == len(path) - 1 else "partial")
